@@ -953,6 +953,7 @@ func (f *Frame) box(st *State, v *Term, from types.Type) *Term {
 	ub := c.declareFun("unbox!"+sname, []Sort{SInt}, v.Sort)
 	b := App(bx, SInt, v)
 	c.assume(st, Eq(App(ub, v.Sort, b), v))
+	c.assume(st, Ne(b, IntLit(0)))
 	return App("mkI", SIfc, tag, b)
 }
 
